@@ -433,6 +433,25 @@ def check_interval(res, kind, ranges, notation, probes):
     if got != expected:
         res.fail('C13.normal_form', f"{cls.__name__}({spec!r}).as_list() = {got}, expected {expected}")
         return None
+    # the exported form belongs to the caller: editing it in place (to derive another interval) must
+    # not change what is exported afterwards, by this or by any other interval
+    def scribble(x):
+        for i, item in enumerate(x):
+            if isinstance(item, list):
+                scribble(item)
+            else:
+                x[i] = 99
+    scribble(got)
+    for how, again in (('same object', lambda: obj.as_list()), ('equal interval', lambda: cls(spec).as_list())):
+        try:
+            later = again()
+        except Exception as err:
+            res.fail('C13.export_not_independent', f"{spec!r}: {how} after editing an exported form: {err!r}")
+            return None
+        if later != expected:
+            res.fail('C13.export_not_independent', f"{cls.__name__}({spec!r}): after the caller edited a form "
+                     f"returned by as_list(), as_list() of the {how} gives {later}, expected {expected}")
+            return None
     # round trips
     for how, again in (('as_list', lambda: cls(obj.as_list())), ('as_string', lambda: cls(obj.as_string()))):
         try:
